@@ -494,7 +494,7 @@ def check_sampled_bulk(case, acc):
         return {k: float(v) for k, v in fr.items()}
 
     n_exec = 0
-    for choices, trace, infos, res in choicetree.explore(run, check_replay=(shots < 5 * 10 ** 6)):
+    for choices, trace, infos, res in choicetree.explore(run, check_replay=(shots < 5 * 10 ** 6), max_exec=64):
         n_exec += 1
         acc.transitions += 1
         acc.evals += 1
@@ -576,7 +576,7 @@ def shards(tier, seed):
         sh.append({"kind": "history", "backend": "sympy", "first": first, "seed": seed, "L": 2 if tier == "quick" else 3})
     sh.append({"kind": "sampled", "seed": seed, "tier": tier})
     CH = 10 ** 7  # chunk size used by the sampling loops (a local constant of the implementation)
-    for shots in ((CH - 1, CH, CH + 1, 2 * CH) if tier == "quick" else (9, 65, CH - 1, CH, CH + 1, 2 * CH - 1, 2 * CH, 2 * CH + 1, 3 * CH)):
+    for shots in ((2500001, CH - 1, CH, CH + 1, 2 * CH) if tier == "quick" else (9, 65, 2500001, CH - 1, CH, CH + 1, 2 * CH - 1, 2 * CH, 2 * CH + 1)):
         sh.append({"kind": "sampled_bulk", "seed": seed, "n_shots": shots})
     # heaviest shards first (tail latency): bulk draws, then the slow sympy backend, then everything else in order
     rank = lambda x: (0, -x["n_shots"]) if x["kind"] == "sampled_bulk" else (1, 0) if x.get("backend") == "sympy" else (2, 0)
